@@ -1,6 +1,8 @@
 package h
 
 import (
+	"errors"
+
 	z "github.com/Oudwins/zog"
 	v "github.com/Oudwins/zog/zzverif"
 )
@@ -295,7 +297,7 @@ func C09_Run(job string) {
 // C13 — Parse and Validate agree on fully populated values.
 
 func C13_Jobs() []string {
-	var out []string
+	out := []string{"post/prim", "post/struct", "post/slice"}
 	for _, j := range shapeJobs() {
 		m, _, _, _ := split3(j)
 		if m == "validate" {
@@ -366,7 +368,77 @@ func sameFullMaps(a, b z.ZogIssueMap) bool {
 	return true
 }
 
+// PostTransforms behave alike in both modes: same order, same stop at the first error, same
+// resulting value
+func c13Post(kind string) {
+	x := v.Int("x")
+	v.Assume(v.And(x != 0, v.And(x > -1000000, x < 1000000)))
+	failAt := v.Choice("fail-at", 4) // which of the three transforms returns an error (3 = none)
+	mk := func(log *string, k int) z.PostTransform {
+		return func(p any, ctx z.Ctx) error {
+			*log += string(rune('a' + k))
+			switch d := p.(type) {
+			case *int:
+				*d = *d*2 + k
+			case *Inner:
+				d.X = d.X*2 + k
+			case *[]int:
+				for i := range *d {
+					(*d)[i] = (*d)[i]*2 + k
+				}
+			}
+			if k == failAt {
+				return errFail
+			}
+			return nil
+		}
+	}
+	var l1, l2 string
+	switch kind {
+	case "prim":
+		build := func(log *string) *z.NumberSchema[int] {
+			return z.Int().PostTransform(mk(log, 0)).PostTransform(mk(log, 1)).PostTransform(mk(log, 2))
+		}
+		d1, d2 := x, 0
+		e1 := build(&l1).Validate(&d1)
+		e2 := build(&l2).Parse(x, &d2)
+		v.Assert(l1 == l2, "C13:callbacks-differ-between-modes")
+		v.Assert(fullCodes(e1) == fullCodes(e2), "C13:issues-differ-between-modes")
+		v.Assert(d1 == d2, "C13:values-differ-between-modes")
+	case "struct":
+		build := func(log *string) *z.StructSchema {
+			return z.Struct(z.Schema{"x": z.Int().PostTransform(mk(log, 0)), "y": z.String()}).PostTransform(mk(log, 1)).PostTransform(mk(log, 2))
+		}
+		d1, d2 := Inner{x, "s"}, Inner{}
+		v.MapOrderChoice(false)
+		e1 := build(&l1).Validate(&d1)
+		e2 := build(&l2).Parse(map[string]any{"x": x, "y": "s"}, &d2)
+		v.Assert(l1 == l2, "C13:callbacks-differ-between-modes")
+		v.Assert(sameFullMaps(e1, e2), "C13:issues-differ-between-modes")
+		v.Assert(d1.X == d2.X && d1.Y == d2.Y, "C13:values-differ-between-modes")
+	case "slice":
+		build := func(log *string) *z.SliceSchema {
+			return z.Slice(z.Int().PostTransform(mk(log, 0))).PostTransform(mk(log, 1)).PostTransform(mk(log, 2))
+		}
+		d1 := []int{x, x + 1}
+		var d2 []int
+		e1 := build(&l1).Validate(&d1)
+		e2 := build(&l2).Parse([]any{x, x + 1}, &d2)
+		v.Assert(l1 == l2, "C13:callbacks-differ-between-modes")
+		v.Assert(sameFullMaps(e1, e2), "C13:issues-differ-between-modes")
+		v.Assert(eqIntSlices(d1, d2), "C13:values-differ-between-modes")
+	}
+	v.Cover("agree-issues")
+	v.Cover("agree-clean")
+}
+
+var errFail = errors.New("transform failed")
+
 func C13_Run(job string) {
+	if a, b, _, _ := split3(job); a == "post" {
+		c13Post(b)
+		return
+	}
 	sh := buildShape("validate/" + job)
 	v.Assume(populated(sh.root()))
 	// pointers are non-nil in a fully populated value
